@@ -83,7 +83,7 @@ func flagSet(name string) bool {
 func runProp(spec *PropSpec, tier, mutant string, noMut bool) (code int) {
 	start := time.Now()
 	c := &Ctx{Prop: spec.ID, Tier: tier, Rules: map[string]*RuleStat{}, FuncsSeen: map[string]bool{}, Extra: map[string]interface{}{}}
-	c.Explanation = spec.Explanation + round8Explanations[spec.ID] + round9Explanations[spec.ID] + round10Explanations[spec.ID] + round11bExplanations[spec.ID] + round12Explanations[spec.ID] + round13Explanations[spec.ID] + round14Explanations[spec.ID] + round15Explanations[spec.ID] + round16Explanations[spec.ID] + genericExplanation
+	c.Explanation = spec.Explanation + round8Explanations[spec.ID] + round9Explanations[spec.ID] + round10Explanations[spec.ID] + round11bExplanations[spec.ID] + round12Explanations[spec.ID] + round13Explanations[spec.ID] + round14Explanations[spec.ID] + round15Explanations[spec.ID] + round16Explanations[spec.ID] + round17Explanations[spec.ID] + genericExplanation
 	var runErr error
 	var mut *MutantSummary
 	defer func() {
